@@ -65,6 +65,8 @@ def build(node, m):
         return flp.Pstutter(B(node[1]), node[2])
     if k == 'clump':
         return flp.Pclump(B(node[1]), node[2])
+    if k == 'clump-pat':
+        return flp.Pclump(B(node[1]), lsp.Pseq(list(node[2]), 1))
     if k == 'flatten':
         return flp.Pflatten(flp.Pclump(B(node[1]), node[2]), 1)
     if k == 'diff':
@@ -158,6 +160,20 @@ def den(node, bi):
                 yield cur
                 cur = []
         if cur:
+            yield cur
+    elif k == 'clump-pat':
+        # clump sizes drawn from a finite pattern: one clump per size; a source that ends inside a clump gives the
+        # partial clump; nothing follows the last size
+        src = as_stream(node[1], bi)
+        for n in node[2]:
+            cur = []
+            for _ in range(int(n)):
+                try:
+                    cur.append(next(src))
+                except StopIteration:
+                    if cur:
+                        yield cur
+                    return
             yield cur
     elif k == 'flatten':
         # clumping then flattening one level gives the source back (n >= 1)
@@ -336,7 +352,7 @@ def inner_nodes(env, depth, lo=0):
 
 TEMPLATES = ['seq', 'ser', 'n', 'len', 'drop', 'stutter', 'clump', 'flatten', 'diff', 'const', 'switch', 'switch1',
              'place', 'tuple', 'slide', 'series', 'geom', 'collect', 'select', 'reject', 'if', 'wrap', 'unop', 'binop',
-             'rbinop', 'narop', 'seq-narop', 'seq-offset', 'n-inf', 'ser-inf', 'series-pat', 'geom-pat']
+             'rbinop', 'narop', 'seq-narop', 'seq-offset', 'n-inf', 'ser-inf', 'series-pat', 'geom-pat', 'clump-pat']
 
 
 def make(template, env, ctx, depth):
@@ -364,6 +380,8 @@ def make(template, env, ctx, depth):
         return ('stutter', ('seq', [v(), pick()], 1, 0), env.cnt(0, 3))
     if template == 'clump':
         return ('clump', ('seq', [v(), v(), pick()], env.cnt(1, 2), 0), env.cnt(1, 3))
+    if template == 'clump-pat':
+        return ('clump-pat', ('seq', [v(), v(), pick()], env.cnt(1, 2), 0), [env.cnt(1, 2), env.cnt(1, 3)])
     if template == 'flatten':
         return ('flatten', ('seq', [v(), v(), pick()], 1, 0), env.cnt(1, 3))
     if template == 'diff':
